@@ -231,7 +231,7 @@ func runRacing(t *testing.T, idx int, rng *mon.RNG) {
 		time.Sleep(2 * time.Minute)
 		synctest.Wait()
 	})
-	if res.OK() && !w.viol {
+	if res.OK() && !w.viol.Load() {
 		newJudge(w).run()
 	}
 	finishCase(idx, w, res, desc)
